@@ -91,6 +91,23 @@ func runCase(c *fw.Check, seed uint64, idx int, tier string) (res *fw.Result) {
 	return c.Run(seed, idx, tier)
 }
 
+func gcd(a, b int) int {
+	for b != 0 {
+		a, b = b, a%b
+	}
+	return a
+}
+
+// permMultiplier - a multiplier coprime to total: k -> k*mul mod total is a bijection on [0,total).
+func permMultiplier(total int) int {
+	for _, p := range []int{1000003, 998244353 % 2000003, 7919, 104729, 15485863, 31, 17, 13, 7, 5, 3} {
+		if p%total != 0 && gcd(p, total) == 1 {
+			return p % total
+		}
+	}
+	return 1
+}
+
 func worker() {
 	c := fw.Registry[*fCheck]
 	if c == nil {
@@ -119,8 +136,11 @@ func worker() {
 	if *fOnly >= 0 {
 		do(*fOnly)
 	} else {
-		for idx := *fShard; idx < total; idx += *fNShards {
-			do(idx)
+		// spread the case indices over the shards with a fixed permutation (enumerated spaces put cases of
+		// similar cost at the same residue; a stride would load the shards unevenly)
+		mul := permMultiplier(total)
+		for k := *fShard; k < total; k += *fNShards {
+			do(int(uint64(k) * uint64(mul) % uint64(total)))
 		}
 	}
 	if jf != nil {
@@ -231,6 +251,9 @@ func coordinate() int {
 	}
 	total := c.Cases(tier)
 	nw := runtime.NumCPU()
+	if c.WorkersPerCPU > 1 {
+		nw *= c.WorkersPerCPU
+	}
 	if *fWorkers > 0 {
 		nw = *fWorkers
 	}
@@ -428,6 +451,9 @@ func coordinate() int {
 	realViol := 0
 	knownSeen := map[string]int{}
 	repDir := filepath.Join(verif, "replays", c.ID)
+	if os.Getenv("VERIF_NO_EVIDENCE") != "" {
+		repDir = filepath.Join(verif, ".work", "replays-scratch", c.ID)
+	}
 	var lines []string
 	for _, v := range agg.Violations {
 		if k := isKnown(v.KnownKey); k != nil {
@@ -482,8 +508,12 @@ func coordinate() int {
 		"assumptions": assumptions, "wall_s": wall, "violations": realViol + extra,
 		"known_findings_seen": knownSeen, "technique": c.Technique,
 	}
-	os.MkdirAll(filepath.Join(verif, "evidence"), 0o755)
-	if err := fw.WriteJSON(filepath.Join(verif, "evidence", c.ID+".json"), ev); err != nil {
+	evDir := filepath.Join(verif, "evidence")
+	if os.Getenv("VERIF_NO_EVIDENCE") != "" { // sensitivity runs against patched trees must not overwrite the evidence
+		evDir = filepath.Join(verif, ".work", "evidence-scratch")
+	}
+	os.MkdirAll(evDir, 0o755)
+	if err := fw.WriteJSON(filepath.Join(evDir, c.ID+".json"), ev); err != nil {
 		fmt.Fprintln(os.Stderr, "evidence:", err)
 		return 3
 	}
